@@ -23,7 +23,8 @@ import (
 type vfFaultSpec struct {
 	Dir   string `json:"dir"`  // c2s | s2c
 	Kind  string `json:"kind"` // flip delete dup insert truncate
-	Mode  string `json:"mode"` // "frac": Sel/65536 of the transcript; "msg": message Sel (mod count), byte by BSel; "abs": Sel is the offset
+	Mode  string `json:"mode"` // "frac": Sel/65536 of the transcript; "msg": message Sel (mod count), byte by BSel; "typ": like msg among the messages of type Typ; "abs": Sel is the offset
+	Typ   string `json:"typ,omitempty"`
 	Sel   int    `json:"sel"`
 	BSel  int    `json:"bsel"` // msg mode: 0,1 first bytes; -1,-2 last bytes; otherwise position modulo length
 	N     int    `json:"n,omitempty"`
@@ -68,10 +69,21 @@ func vfResolveFault(f vfFaultSpec, link *vfLink) (vfFault, string) {
 func vfResolveIn(f vfFaultSpec, msgs []vfMsg, total int64) (vfFault, string) {
 	var off int64
 	phase := "?"
+	if f.Mode == "typ" {
+		var cand []vfMsg
+		for _, m := range msgs {
+			if m.Typ == f.Typ {
+				cand = append(cand, m)
+			}
+		}
+		if len(cand) > 0 {
+			msgs = cand
+		}
+	}
 	switch f.Mode {
 	case "abs":
 		off = int64(f.Sel)
-	case "msg":
+	case "msg", "typ":
 		if len(msgs) == 0 {
 			return vfFault{}, ""
 		}
@@ -90,7 +102,18 @@ func vfResolveIn(f vfFaultSpec, msgs []vfMsg, total int64) (vfFault, string) {
 	for _, m := range msgs {
 		if off >= m.Off && off < m.Off+int64(m.Len) {
 			phase = m.Typ
+			if f.Kind == "dupline" || f.Kind == "delline" {
+				// the whole message is duplicated / dropped (a retransmitting or lossy transport works on units, not on bytes)
+				kind := vfFaultDup
+				if f.Kind == "delline" {
+					kind = vfFaultDelete
+				}
+				return vfFault{Kind: kind, Off: m.Off, N: m.Len}, phase
+			}
 		}
+	}
+	if f.Kind == "dupline" || f.Kind == "delline" {
+		return vfFault{}, ""
 	}
 	// the handshake lines are part of the connection of the transfer in the pair engine (there is no trigger line here)
 	return vfFault{Kind: f.Kind, Off: off, N: f.N, Bit: f.Bit, Data: f.Data}, phase
@@ -167,22 +190,38 @@ func vfC02Run(cs vfC02Case, res *vfC02Res) string {
 	default:
 		res.outcome = "both_error"
 	}
-	if clientOK || serverOK {
-		for _, f := range cs.Files {
+	// whoever reports success reports it for the files it names: each of them must be byte-identical to its source
+	check := func(who string, names []string) string {
+		if len(names) > len(cs.Files) {
+			return fmt.Sprintf("%s reported success for %d files %q, only %d were sent (faults %v; %s)", who, len(names), names, len(cs.Files), res.phases, r.describe())
+		}
+		for i, name := range names {
+			f := cs.Files[i]
 			want := vfContent(f.Kind, f.Seed, f.Size)
-			got, err := os.ReadFile(filepath.Join(dest, f.Rel[0]))
-			who := "the client"
-			if !clientOK {
-				who = "the server"
-			} else if serverOK {
-				who = "both sides"
-			}
+			got, err := os.ReadFile(filepath.Join(dest, name))
 			if err != nil {
-				return fmt.Sprintf("%s reported success but %q does not exist at the destination: %v (faults %v; %s)", who, f.Rel[0], err, res.phases, r.describe())
+				return fmt.Sprintf("%s reported success for %q but it does not exist at the destination: %v (faults %v; %s)", who, name, err, res.phases, r.describe())
 			}
 			if !bytes.Equal(got, want) {
-				return fmt.Sprintf("%s reported success but %q differs from the source (%d vs %d bytes, first difference at %d) (faults %v; %s)",
-					who, f.Rel[0], len(got), len(want), vfLCP(got, want), res.phases, r.describe())
+				return fmt.Sprintf("%s reported success for %q but it differs from the source %q (%d vs %d bytes, first difference at %d) (faults %v; %s)",
+					who, name, f.Rel[0], len(got), len(want), vfLCP(got, want), res.phases, r.describe())
+			}
+		}
+		return ""
+	}
+	if clientOK {
+		if m := check("the client", r.clientNames); m != "" {
+			return m
+		}
+	}
+	if serverOK {
+		if m := check("the server", r.serverNames); m != "" {
+			return m
+		}
+		// the message the server shows comes from the client's EXIT line
+		if _, shown, ok := vfParseSaved(r.serverMsg); ok {
+			if m := check("the server's final message", shown); m != "" {
+				return m
 			}
 		}
 	}
@@ -208,13 +247,22 @@ func vfGenC02(rt *rapid.T) vfC02Case {
 	cs.Cfg.TmuxJunk = false
 	if cs.Cfg.Overwrite && rapid.Bool().Draw(rt, "hasprev") {
 		cs.Prev = rapid.IntRange(1, 3).Draw(rt, "prev")
+		if rapid.Bool().Draw(rt, "resumeproto") && cs.Cfg.Protocol < 3 {
+			cs.Cfg.Protocol = rapid.SampledFrom([]int{3, 4}).Draw(rt, "rproto")
+		}
 	}
 	nf := rapid.IntRange(1, 3).Draw(rt, "nfaults")
 	for i := 0; i < nf; i++ {
 		var f vfFaultSpec
 		f.Dir = rapid.SampledFrom([]string{"c2s", "s2c"}).Draw(rt, "dir")
-		f.Kind = rapid.SampledFrom([]string{vfFaultFlip, vfFaultFlip, vfFaultDelete, vfFaultDup, vfFaultInsert, vfFaultTrunc}).Draw(rt, "kind")
-		if rapid.Bool().Draw(rt, "boundary") {
+		f.Kind = rapid.SampledFrom([]string{vfFaultFlip, vfFaultFlip, vfFaultDelete, vfFaultDup, vfFaultInsert, vfFaultTrunc, "dupline", "delline"}).Draw(rt, "kind")
+		if rapid.IntRange(0, 3).Draw(rt, "bytype") == 0 {
+			// every phase gets its share, however few bytes it has on the wire
+			f.Mode = "typ"
+			f.Typ = rapid.SampledFrom([]string{"NUM", "NAME", "SIZE", "HASH", "COMP", "DATA", "BIN", "SUCC", "MD5", "EXIT", "SUCC", "HASH"}).Draw(rt, "ftyp")
+			f.Sel = rapid.IntRange(0, 60).Draw(rt, "typsel")
+			f.BSel = rapid.SampledFrom([]int{0, 1, 2, 5, 6, 7, 8, 9, 12, 20, 33, -1, -2, -3, -5}).Draw(rt, "tbsel")
+		} else if rapid.Bool().Draw(rt, "boundary") {
 			f.Mode = "msg"
 			f.Sel = rapid.IntRange(0, 400).Draw(rt, "msgsel")
 			f.BSel = rapid.SampledFrom([]int{0, 1, 2, 5, 6, 7, 8, 9, -1, -2, -3, 17, 40}).Draw(rt, "bsel")
